@@ -495,10 +495,20 @@ func evalErase(r *core.Run, cases []*eraseCase, header *eraseCase, only *eraseRe
 		case only != nil:
 			plan = []triple{{only.Cfg, only.Loader, only.Mode}}
 		case r.Thorough():
-			for _, cf := range app {
+			// the default option set and three others (chosen by the hash of the variant and the seed; over the
+			// variants every option set is used), each under every loader and every rendering
+			pick := func(k uint32) eraseCfg { return app[1+int((h/k)%uint32(len(app)-1))] }
+			for _, cf := range []eraseCfg{app[0], pick(1), pick(97), pick(389)} {
 				for _, l := range loaders {
 					for _, m := range myModes {
 						plan = append(plan, triple{cf, l, m})
+					}
+				}
+			}
+			if has(c.Pfl, "jsx") {
+				for _, cf := range app {
+					if cf.jsxOnly {
+						plan = append(plan, triple{cf, "tsx", myModes[0]}, triple{cf, "tsx", myModes[len(myModes)-1]})
 					}
 				}
 			}
